@@ -250,3 +250,104 @@ def observe(f, fmt):  # noqa: F811
     if 'ETFLAG' in f.variables.keys():
         o['ETFLAG'] = np.asarray(f.variables['ETFLAG'][:, 0, :]).astype('int64').tolist()
     return o
+
+
+# ----------------------------------------------------------------------------- land use (static file, old style: 11 categories)
+def gen_landuse(rng):
+    nx, ny = rng.randint(1, 3), rng.randint(1, 3)
+    fields = {'FLAND': [[L.finite_word(rng) for _ in range(nx * ny)] for _ in range(11)]}
+    if rng.random() < 0.7:   # most files: first 8 payload bytes decodable as text (0.0 / small positive values)
+        flat = [0, rng.choice([0, 0x3f000000, 0x3e4c4c4c])]
+        k = 0
+        for cat in fields['FLAND']:
+            for i in range(len(cat)):
+                if k < 2:
+                    cat[i] = flat[k]
+                    k += 1
+    if rng.random() < 0.5:
+        fields['TOPO'] = [[L.finite_word(rng) for _ in range(nx * ny)]]
+    return dict(fmt='landuse', nx=nx, ny=ny, nz=1, steps=[dict(date=0, hhmm=0, fields=fields)], lstagger=0)
+
+
+_records2 = records
+
+
+def records(c):  # noqa: F811
+    if c['fmt'] == 'landuse':
+        f = c['steps'][0]['fields']
+        out = [[w for cat in f['FLAND'] for w in cat]]
+        if 'TOPO' in f:
+            out.append(list(f['TOPO'][0]))
+        return out
+    return _records2(c)
+
+
+_expected2 = expected_view
+
+
+def expected_view(c):  # noqa: F811
+    if c['fmt'] != 'landuse':
+        return _expected2(c)
+    f = c['steps'][0]['fields']
+    nx, ny = c['nx'], c['ny']
+    data = {'FLAND': [[cat[j * nx:(j + 1) * nx] for j in range(ny)] for cat in f['FLAND']]}
+    if 'TOPO' in f:
+        data['TOPO'] = [f['TOPO'][0][j * nx:(j + 1) * nx] for j in range(ny)]
+    return dict(dims=dict(ROW=ny, COL=nx, LANDUSE=11), data=data, TFLAG=None, static=True)
+
+
+_open2 = open_memmap
+
+
+def open_memmap(fmt, path, c):  # noqa: F811
+    if fmt == 'landuse':
+        from PseudoNetCDF.camxfiles import Memmaps
+        return Memmaps.landuse(path, c['ny'], c['nx'])
+    return _open2(fmt, path, c)
+
+
+_write2 = write
+
+
+def write(fmt, f, path):  # noqa: F811
+    if fmt == 'landuse':
+        from PseudoNetCDF.camxfiles.landuse.Write import ncf2landuse
+        out = ncf2landuse(f, path)
+        if out is not None and hasattr(out, 'close'):
+            out.close()
+        return
+    return _write2(fmt, f, path)
+
+
+_observe2 = observe
+
+
+def observe(f, fmt):  # noqa: F811
+    if fmt != 'landuse':
+        return _observe2(f, fmt)
+    import numpy as np
+    o = dict(dims={k: len(v) for k, v in f.dimensions.items() if k in ('ROW', 'COL', 'LANDUSE')})
+    data = {}
+    for v in f.variables.keys():
+        a = np.asarray(f.variables[v][...], dtype='>f4')
+        data[v] = a.view('>u4').astype('int64').tolist()
+    o['data'] = data
+    return o
+
+
+_vm2 = view_matches
+
+
+def view_matches(o, e, k=None):  # noqa: F811
+    if not e.get('static'):
+        return _vm2(o, e, k)
+    why = []
+    for d, n in e['dims'].items():
+        if o['dims'].get(d) != n:
+            why.append('dim %s=%s expected %s' % (d, o['dims'].get(d), n))
+    if sorted(o['data'].keys()) != sorted(e['data'].keys()):
+        why.append('variables %s expected %s' % (sorted(o['data'].keys()), sorted(e['data'].keys())))
+    for v, arr in e['data'].items():
+        if o['data'].get(v) != arr:
+            why.append('data of %s differs' % v)
+    return why
